@@ -1,6 +1,6 @@
 (* Proof/ShrinkProof.v - lemmas about the model of shrinking (Model/Shrink.v) for property C04.
    The theorems are re-stated in Props/C04.v. *)
-From Coq Require Import List ZArith NArith String Bool Lia.
+From Coq Require Import List ZArith NArith String Bool Lia DecimalString DecimalN DecimalPos FinFun.
 From SCC Require Import Base.Sexp Lang.SynUtil Lang.CoreSyn Lang.AxSyn Sem.FsCheck Model.Shrink.
 Import ListNotations.
 Open Scope list_scope.
@@ -79,6 +79,65 @@ Lemma fsz_clause_in : forall cl cls, In cl cls -> fsz_clause cl <= fsz_clauses c
 Proof.
   induction cls as [|y r IH]; intros Hin; [contradiction|].
   rewrite fsz_clauses_cons. destruct Hin as [->|Hin]; [lia|]. specialize (IH Hin). lia.
+Qed.
+
+Ltac inv H := inversion H; subst; clear H.
+
+(* ====================================================================================== *)
+(* the label loop of `lift`                                                                 *)
+(* ====================================================================================== *)
+Lemma n_to_string_inj : forall a b, n_to_string a = n_to_string b -> a = b.
+Proof.
+  assert (H : forall n, n_of_string (n_to_string n) = Some n).
+  { intros n. unfold n_of_string, n_to_string. rewrite DecimalString.NilZero.usu.
+    - now rewrite DecimalN.Unsigned.of_to.
+    - destruct n; simpl; [discriminate | apply DecimalPos.Unsigned.to_uint_nonnil]. }
+  intros a b Hab. pose proof (H a) as Ha. rewrite Hab, H in Ha. now inv Ha.
+Qed.
+Lemma append_inj_l : forall a b c, (a ++ b)%string = (a ++ c)%string -> b = c.
+Proof. induction a; simpl; intros b c H; [exact H|]. inversion H. auto. Qed.
+Lemma show_cident_inj : forall base i j, i <> 0%N -> j <> 0%N -> show_cident (base, i) = show_cident (base, j) -> i = j.
+Proof.
+  intros base i j Hi Hj H. unfold show_cident in H. simpl in H.
+  apply N.eqb_neq in Hi, Hj. rewrite Hi, Hj in H.
+  apply append_inj_l in H. simpl in H. inversion H. now apply n_to_string_inj.
+Qed.
+
+Lemma fresh_label_spec : forall fuel used base st c st1,
+  fresh_label fuel used base st = Some (c, st1) ->
+  fst c = base /\ snd c = s_max st1 /\ (s_max st < s_max st1)%N /\
+  s_lifted st1 = s_lifted st /\ s_used st1 = s_used st /\
+  existsb (fun u => String.eqb (show_cident u) (show_cident c)) used = false.
+Proof.
+  induction fuel as [|fuel IH]; intros used base st c st1 H; simpl in H; [discriminate|].
+  destruct (existsb _ used) eqn:He.
+  - apply IH in H as [H1 [H2 [H3 [H4 [H5 H6]]]]]. simpl in *. repeat split; auto. lia.
+  - inv H. simpl. repeat split; auto. lia.
+Qed.
+(* the candidates of a failing run are all (printed) among the used labels *)
+Lemma fresh_label_none : forall fuel used base st,
+  fresh_label fuel used base st = None ->
+  forall k, k < fuel -> In (show_cident (base, s_max st + 1 + N.of_nat k)%N) (map show_cident used).
+Proof.
+  induction fuel as [|fuel IH]; intros used base st H k Hk; [lia|]. simpl in H.
+  destruct (existsb _ used) eqn:He; [|discriminate].
+  destruct k as [|k].
+  - apply existsb_exists in He as [u [Hu Heq]]. apply String.eqb_eq in Heq.
+    replace (s_max st + 1 + N.of_nat 0)%N with (N.succ (s_max st)) by lia. rewrite <- Heq. now apply in_map.
+  - specialize (IH _ _ _ H k). simpl in IH.
+    replace (s_max st + 1 + N.of_nat (S k))%N with (N.succ (s_max st) + 1 + N.of_nat k)%N by lia. apply IH. lia.
+Qed.
+Lemma fresh_label_total : forall used base st, exists r, fresh_label (S (List.length used)) used base st = Some r.
+Proof.
+  intros used base st. destruct (fresh_label _ used base st) as [r|] eqn:H; [eexists; reflexivity|]. exfalso.
+  pose proof (fresh_label_none _ _ _ _ H) as Hin.
+  set (cands := map (fun k => show_cident (base, s_max st + 1 + N.of_nat k)%N) (seq 0 (S (List.length used)))).
+  assert (Hnd : NoDup cands).
+  { unfold cands. apply FinFun.Injective_map_NoDup; [|apply seq_NoDup].
+    intros a b Hab. apply show_cident_inj in Hab; lia. }
+  assert (Hincl : incl cands (map show_cident used)).
+  { intros x Hx. unfold cands in Hx. apply in_map_iff in Hx as [k [<- Hk]]. apply in_seq in Hk. apply Hin. lia. }
+  apply NoDup_incl_length in Hincl; auto. unfold cands in Hincl. rewrite !map_length, seq_length in Hincl. lia.
 Qed.
 
 (* ====================================================================================== *)
@@ -163,7 +222,6 @@ Lemma shape_subst : forall sub s, shape_stmt (subst_stmt sub s) = shape_stmt s.
 Proof. intros. apply (shape_subst_all sub). Qed.
 End Shape.
 
-Ltac inv H := inversion H; subst; clear H.
 
 Section TotalStep.
 Variable rec : fsstmt -> sst -> shres (stmt * sst).
@@ -187,8 +245,8 @@ Lemma lift_total : forall s st, fsz s <= n -> shapeS s = true -> exists r, lift 
 Proof.
   intros s st Hsz Hsh. unfold lift.
   destruct (lift_params (typed_free_vars s) st) as [[cx sub] st1].
-  destruct (fresh_identifier st1 _) as [label st2].
-  destruct (Hrec (subst_stmt sub s) st2) as [[b st3] Hb].
+  destruct (fresh_label_total (s_used st1) ("lift_" ++ e_label E ++ "_")%string st1) as [[label st2] Hl]. rewrite Hl.
+  destruct (Hrec (subst_stmt sub s) (mksst (s_max st2) (s_lifted st2) (label :: s_used st2))) as [[b st3] Hb].
   - now rewrite fsz_subst.
   - now rewrite shape_subst.
   - rewrite Hb. simpl. eexists; reflexivity.
@@ -531,13 +589,13 @@ Proof.
   destruct Hin as [->|Hin]; [exact Ha | now apply IH].
 Qed.
 
-Lemma shrink_defs_total : forall data codata ds m acc,
+Lemma shrink_defs_total : forall data codata ds used m acc,
   (forall d, In d ds -> shape_stmt data codata (fsdbody d) = true) ->
-  exists r, shrink_defs ds data codata m acc = SOk r.
+  exists r, shrink_defs ds data codata used m acc = SOk r.
 Proof.
-  induction ds as [|d r IH]; intros m acc Hsh; simpl; [eexists; reflexivity|].
+  induction ds as [|d r IH]; intros used m acc Hsh; simpl; [eexists; reflexivity|].
   unfold shrink_def.
-  destruct (shrink_stmt_total (mksenv data codata (fst (fsdname d))) (fsz (fsdbody d)) (fsdbody d) (mksst m []))
+  destruct (shrink_stmt_total (mksenv data codata (fst (fsdname d))) (fsz (fsdbody d)) (fsdbody d) (mksst m [] used))
     as [[b st] Hb]; [lia | apply Hsh; now left |].
   rewrite Hb. simpl. apply IH. intros d' Hin. apply Hsh. now right.
 Qed.
@@ -551,7 +609,7 @@ Proof.
   unfold check_fs in Hc. break_checks.
   apply negb_true_iff in Hc2. apply existsb_app_false in Hc2 as [Hd Hcd].
   unfold shrink_prog. unfold cont_name_fs in *. unfold cont_name. rewrite Hd, Hcd. simpl.
-  destruct (shrink_defs_total (fspdata p ++ [cont_int]) (fspcodata p) (fspdefs p) (fspmax p) []) as [[defs m] Hs].
+  destruct (shrink_defs_total (fspdata p ++ [cont_int]) (fspcodata p) (fspdefs p) (map fsdname (fspdefs p)) (fspmax p) []) as [[defs m] Hs].
   - intros d Hin. eapply check_stmt_shape.
     + apply nodup_types_disjoint. exact Hc1.
     + eapply check_defs_in; eauto.
@@ -948,7 +1006,7 @@ Fixpoint fresh_params (fvs : list cbinding) (m : N) : cctx :=
 Lemma lift_params_spec : forall fvs st cx sub st1,
   lift_params fvs st = ((cx, sub), st1) ->
   cx = fresh_params fvs (s_max st) /\ sub = combine (cids fvs) (cvars cx) /\
-  st1 = mksst (s_max st + N.of_nat (List.length fvs)) (s_lifted st).
+  st1 = mksst (s_max st + N.of_nat (List.length fvs)) (s_lifted st) (s_used st).
 Proof.
   induction fvs as [|b r IH]; intros st cx sub st1 H; simpl in H.
   - inversion H; subst. simpl. rewrite N.add_0_r. destruct st1; auto.
@@ -984,28 +1042,34 @@ Qed.
    in that order; the new definition, pushed to the front of the lifted definitions, has one fresh
    parameter per free variable, in the same order with the same name, chirality and type (hence the
    same AxCut signature as the call's arguments), pairwise distinct; its body is the shrunk statement
-   with each free variable renamed to its parameter. *)
+   with each free variable renamed to its parameter; its label `lift_<def>_` carries an id drawn
+   after the parameters whose PRINTED form differs from that of every label used so far, and is
+   recorded as used. *)
 Theorem lift_closed : forall rec E s st r st',
   lift rec E s st = SOk (r, st') ->
   let fvs := typed_free_vars s in
   let params := fresh_params fvs (s_max st) in
-  let label := (("lift_" ++ e_label E ++ "_")%string, N.succ (s_max st + N.of_nat (List.length fvs))) in
   bsorted fvs /\ NoDup fvs /\ NoDup (cids params) /\
   Forall2 (fun p f => fst (cbvar p) = fst (cbvar f) /\ cbchi p = cbchi f /\ cbty p = cbty f) params fvs /\
-  r = Call label (shrink_context (e_codata E) fvs) /\
-  exists body st3,
+  exists label body st3,
+    fst label = ("lift_" ++ e_label E ++ "_")%string /\
+    (s_max st + N.of_nat (List.length fvs) < snd label)%N /\
+    existsb (fun u => String.eqb (show_cident u) (show_cident label)) (s_used st) = false /\
+    r = Call label (shrink_context (e_codata E) fvs) /\
     rec (subst_stmt (combine (cids fvs) (cvars params)) s)
-        (mksst (N.succ (s_max st + N.of_nat (List.length fvs))) (s_lifted st)) = SOk (body, st3) /\
-    st' = mksst (s_max st3) (mkd label (shrink_context (e_codata E) params) body :: s_lifted st3).
+        (mksst (snd label) (s_lifted st) (label :: s_used st)) = SOk (body, st3) /\
+    st' = mksst (s_max st3) (mkd label (shrink_context (e_codata E) params) body :: s_lifted st3) (s_used st3).
 Proof.
-  intros rec E s st r st' H fvs params label. unfold lift in H. fold fvs in H.
+  intros rec E s st r st' H fvs params. unfold lift in H. fold fvs in H.
   destruct (lift_params fvs st) as [[cx sub] st1] eqn:Hp.
   apply lift_params_spec in Hp as [-> [-> ->]]. fold params in H.
-  unfold fresh_identifier in H. cbn [s_max s_lifted] in H.
   split; [apply typed_free_vars_sorted|]. split; [apply typed_free_vars_nodup|].
   split; [apply fresh_params_nodup|]. split; [apply fresh_params_sig|].
+  destruct (fresh_label _ _ _ _) as [[label st2]|] eqn:Hl; [|discriminate].
+  apply fresh_label_spec in Hl as [Hbase [Hid [Hlt [Hlift [Hused Hnew]]]]]. cbn [s_max s_lifted s_used] in *.
+  rewrite Hlift, Hused, <- Hid in H.
   destruct (rec _ _) as [[body st3]|] eqn:Hb; [|discriminate]. cbn [sbind] in H. inv H.
-  split; [reflexivity|]. exists body, st3. split; reflexivity.
+  exists label, body, st3. repeat split; auto. now rewrite Hid.
 Qed.
 
 (* ====================================================================================== *)
@@ -1388,8 +1452,8 @@ Qed.
 Lemma lift_ids : forall s st r st', lift rec E s st = SOk (r, st') -> ids_pre st s -> ids_post st r st'.
 Proof.
   intros s st r st' H [Hib Hl]. apply lift_closed in H.
-  destruct H as [_ [_ [_ [_ [-> [body [st3 [Hb ->]]]]]]]].
-  set (fvs := typed_free_vars s) in *. set (m1 := N.succ (s_max st + N.of_nat (List.length fvs))) in *.
+  destruct H as [_ [_ [_ [_ [label [body [st3 [_ [Hlab [_ [-> [Hb ->]]]]]]]]]]]].
+  set (fvs := typed_free_vars s) in *. set (m1 := snd label) in *.
   assert (Hp : ctx_le m1 (fresh_params fvs (s_max st)) = true).
   { eapply ctx_le_mono; [|apply fresh_params_le]. unfold m1. lia. }
   apply Hrec in Hb as [Hm [Hle Hl3]].
@@ -1590,28 +1654,28 @@ Proof.
   simpl in H. eapply shrink_step_ids; eauto.
 Qed.
 
-Lemma shrink_def_ids : forall d data codata m ds m',
-  shrink_def d data codata m = SOk (ds, m') ->
+Lemma shrink_def_ids : forall d data codata used m ds used' m',
+  shrink_def d data codata used m = SOk (ds, used', m') ->
   ctx_le m (fsdctx d) = true -> ib_stmt m (fsdbody d) = true ->
   (m <= m')%N /\ forallb (def_le m') ds = true.
 Proof.
-  intros d data codata m ds m' H Hc Hb. unfold shrink_def in H.
+  intros d data codata used m ds used' m' H Hc Hb. unfold shrink_def in H.
   destruct (shrink_stmt _ _ _ _) as [[body st]|] eqn:Hs; [|discriminate]. cbn [sbind] in H. inv H.
   apply shrink_stmt_ids in Hs as [Hm [Hle Hl]]; [|split; auto]. cbn [s_max] in *.
   split; auto. cbn [forallb]. split_and; auto. unfold def_le. cbn [dctx dbody]. split_and; auto.
   apply shrink_context_le. eapply ctx_le_mono; eauto.
 Qed.
 
-Lemma shrink_defs_ids : forall ds data codata m acc out m',
-  shrink_defs ds data codata m acc = SOk (out, m') ->
+Lemma shrink_defs_ids : forall ds data codata used m acc out m',
+  shrink_defs ds data codata used m acc = SOk (out, m') ->
   forallb (fun d => ctx_le m (fsdctx d) && ib_stmt m (fsdbody d)) ds = true ->
   forallb (def_le m) acc = true ->
   (m <= m')%N /\ forallb (def_le m') out = true.
 Proof.
-  induction ds as [|d r IH]; intros data codata m acc out m' H Hds Hacc; simpl in H.
+  induction ds as [|d r IH]; intros data codata used m acc out m' H Hds Hacc; simpl in H.
   - inv H. split; [lia|]. unfold frev. rewrite rev_append_rev, app_nil_r. rewrite forallb_forall in *.
     intros x Hx. apply Hacc. now apply in_rev.
-  - destruct (shrink_def d data codata m) as [[o m1]|] eqn:Hd; [|discriminate]. cbn [sbind] in H.
+  - destruct (shrink_def d data codata used m) as [[[o u1] m1]|] eqn:Hd; [|discriminate]. cbn [sbind] in H.
     simpl in Hds. split_and. apply shrink_def_ids in Hd as [Hm1 Ho]; auto.
     apply IH in H as [Hm2 Hout].
     + split; [lia | exact Hout].
@@ -1628,6 +1692,620 @@ Theorem shrink_ids_bounded : forall p q,
   (fspmax p <= pmax q)%N /\ forallb (def_le (pmax q)) (pdefs q) = true.
 Proof.
   intros p q Hb H. unfold shrink_prog in H. destruct (_ || _); [discriminate|].
-  destruct (shrink_defs _ _ _ _ _) as [[defs m]|] eqn:Hd; [|discriminate]. cbn [sbind] in H. inv H. cbn [pmax pdefs].
-  eapply shrink_defs_ids; eauto.
+  destruct (shrink_defs _ _ _ _ _ _) as [[defs m]|] eqn:Hd; [|discriminate]. cbn [sbind] in H. inv H. cbn [pmax pdefs].
+  eapply shrink_defs_ids; eauto. unfold ids_bounded in Hb. rewrite forallb_forall in *. intros d Hin.
+  specialize (Hb d Hin). split_and; auto.
+Qed.
+
+(* ====================================================================================== *)
+(* shrink_fresh_ids, part 2: the binders introduced by shrinking are new and pairwise distinct *)
+(* ====================================================================================== *)
+(* binder ids of an AxCut statement (let/create/literal/op variables and clause parameters) and of a
+   focused Core statement (mu/mu~ variables and clause parameters), in traversal order *)
+Fixpoint binders (s : stmt) : list N :=
+  let go := fix go (l : list (ident * ctx * stmt)) : list N :=
+    match l with
+    | [] => []
+    | c :: r => ids (snd (fst c)) ++ binders (snd c) ++ go r
+    end in
+  match s with
+  | Substitute _ n => binders n       (* explicit substitutions do not occur before linearization *)
+  | Let v _ _ _ n | Literal _ v n | Op _ _ _ v n => idn v :: binders n
+  | Switch _ _ cls => go cls
+  | Create v _ _ cls n => idn v :: go cls ++ binders n
+  | PrintI64 _ _ n => binders n
+  | IfC _ _ _ t e => binders t ++ binders e
+  | Call _ _ | Invoke _ _ _ _ | Exit _ => []
+  end.
+Definition cls_binders (cls : list (ident * ctx * stmt)) : list N :=
+  flat_map (fun c => ids (snd (fst c)) ++ binders (snd c)) cls.
+Lemma binders_switch : forall v t cls, binders (Switch v t cls) = cls_binders cls.
+Proof.
+  intros. simpl. unfold cls_binders. induction cls as [|c r IH]; simpl; [reflexivity|]. now rewrite IH, app_assoc.
+Qed.
+Lemma binders_create : forall v t env cls n, binders (Create v t env cls n) = idn v :: cls_binders cls ++ binders n.
+Proof.
+  intros. simpl. f_equal. f_equal. unfold cls_binders. induction cls as [|c r IH]; simpl; [reflexivity|]. now rewrite IH, app_assoc.
+Qed.
+(* the ids a (lifted) definition introduces: the id of its label, its parameters, its binders *)
+Definition def_binders (d : def) : list N := idn (dname d) :: ids (dctx d) ++ binders (dbody d).
+
+Fixpoint cbinders_term (t : fsterm) : list N :=
+  match t with
+  | FsMu _ v s _ => cid_id v :: cbinders s
+  | FsXCase _ cls _ =>
+      (fix go (l : list fsclause) : list N :=
+         match l with [] => [] | FsClause _ _ ctx b :: r => cids ctx ++ cbinders b ++ go r end) cls
+  | _ => []
+  end
+with cbinders (s : fsstmt) : list N :=
+  match s with
+  | FsCut p _ k => cbinders_term p ++ cbinders_term k
+  | FsIfC _ _ _ t e => cbinders t ++ cbinders e
+  | FsPrint _ _ n => cbinders n
+  | FsCall _ _ | FsExit _ => []
+  end.
+Definition cbinders_clauses (cls : list fsclause) : list N :=
+  flat_map (fun c => cids (clause_ctx c) ++ cbinders (clause_body c)) cls.
+Lemma cbinders_term_xcase : forall c cls t, cbinders_term (FsXCase c cls t) = cbinders_clauses cls.
+Proof.
+  intros. simpl. unfold cbinders_clauses. induction cls as [|[c' x ctx b] r IH]; simpl; [reflexivity|]. now rewrite IH, app_assoc.
+Qed.
+
+(* substitutions never touch binders *)
+Lemma cbinders_subst_all : forall sub,
+  (forall t, cbinders_term (subst_term sub t) = cbinders_term t) /\
+  (forall c, cids (clause_ctx (subst_clause sub c)) ++ cbinders (clause_body (subst_clause sub c))
+             = cids (clause_ctx c) ++ cbinders (clause_body c)) /\
+  (forall s, cbinders (subst_stmt sub s) = cbinders s).
+Proof.
+  intros sub. apply fs_mutind; intros; try reflexivity.
+  - simpl. now rewrite H.
+  - rewrite subst_term_xcase, !cbinders_term_xcase. unfold cbinders_clauses, subst_clauses.
+    induction H as [|y r Hy Hr IH]; simpl; [reflexivity|]. now rewrite Hy, IH.
+  - simpl. now rewrite H.
+  - simpl. now rewrite H, H0.
+  - simpl. now rewrite H, H0.
+  - simpl. now rewrite H.
+Qed.
+Lemma cbinders_subst : forall sub s, cbinders (subst_stmt sub s) = cbinders s.
+Proof. intros. apply (cbinders_subst_all sub). Qed.
+Lemma binders_ax_subst : forall sub s, binders (ax_subst sub s) = binders s.
+Proof.
+  intros sub. apply (stmt_ind' (fun s => binders (ax_subst sub s) = binders s)); intros;
+    rewrite ?ax_subst_switch, ?ax_subst_create, ?binders_switch, ?binders_create; try reflexivity.
+  - simpl. now rewrite H.
+  - simpl. now rewrite H.
+  - unfold cls_binders, ax_subst_cls. induction H as [|c r Hc Hr IH]; simpl; [reflexivity|]. now rewrite Hc, IH.
+  - rewrite H0. do 2 f_equal. unfold cls_binders, ax_subst_cls. induction H as [|c r Hc Hr IH]; simpl; [reflexivity|]. now rewrite Hc, IH.
+  - simpl. now rewrite H.
+  - simpl. now rewrite H.
+  - simpl. now rewrite H.
+  - simpl. now rewrite H, H0.
+Qed.
+
+Definition cnt (l : list N) (x : N) : nat := count_occ N.eq_dec l x.
+Lemma cnt_app : forall a b x, cnt (a ++ b) x = cnt a x + cnt b x.
+Proof. intros. apply count_occ_app. Qed.
+Lemma cnt_cons : forall a l x, cnt (a :: l) x = (if N.eq_dec a x then 1 else 0) + cnt l x.
+Proof. intros. unfold cnt. simpl. destruct (N.eq_dec a x); reflexivity. Qed.
+Lemma cnt_nil : forall x, cnt [] x = 0.
+Proof. reflexivity. Qed.
+Definition lifted_binders (ds : list def) : list N := flat_map def_binders ds.
+Lemma lifted_binders_app : forall a b, lifted_binders (a ++ b) = lifted_binders a ++ lifted_binders b.
+Proof. intros. apply flat_map_app. Qed.
+
+Section Fresh.
+Variable m0 : N.      (* every binder of the input is <= m0 *)
+(* among the ids > m0, each occurs at most once in B and lies in (lo, hi] *)
+Definition fresh_cnt (lo hi : N) (B : list N) : Prop :=
+  forall x, (m0 < x)%N -> cnt B x <= 1 /\ (0 < cnt B x -> (lo < x <= hi)%N).
+Definition old_only (B : list N) : Prop := forall x, (m0 < x)%N -> cnt B x = 0.
+
+Ltac cnt_simpl := repeat (rewrite ?cnt_app, ?cnt_cons, ?cnt_nil in * ).
+Ltac inst_at x Hx :=
+  repeat match goal with
+         | H : fresh_cnt _ _ _ |- _ => let H1 := fresh "Hc" in pose proof (H x Hx) as H1; clear H
+         | H : old_only _ |- _ => let H1 := fresh "Ho" in pose proof (H x Hx) as H1; clear H
+         end.
+Ltac cnt_solve :=
+  let x := fresh "x" in let Hx := fresh "Hx" in
+  intros x Hx; inst_at x Hx; cnt_simpl;
+  repeat match goal with |- context [N.eq_dec ?a x] => destruct (N.eq_dec a x); [subst|] end;
+  simpl in *; try lia.
+
+Lemma fresh_cnt_nil : forall lo hi, fresh_cnt lo hi [].
+Proof. intros lo hi x Hx. rewrite cnt_nil. lia. Qed.
+Lemma fresh_cnt_widen : forall lo hi lo' hi' B, fresh_cnt lo hi B -> (lo' <= lo)%N -> (hi <= hi')%N -> fresh_cnt lo' hi' B.
+Proof. intros lo hi lo' hi' B H H1 H2. cnt_solve. Qed.
+Lemma fresh_cnt_app : forall lo mid hi B1 B2,
+  fresh_cnt lo mid B1 -> fresh_cnt mid hi B2 -> (lo <= mid)%N -> (mid <= hi)%N -> fresh_cnt lo hi (B1 ++ B2).
+Proof. intros lo mid hi B1 B2 H1 H2 Ha Hb. cnt_solve. Qed.
+Lemma fresh_cnt_old : forall lo hi B, old_only B -> fresh_cnt lo hi B.
+Proof. intros lo hi B H. cnt_solve. Qed.
+Lemma old_only_app : forall a b, old_only (a ++ b) <-> old_only a /\ old_only b.
+Proof.
+  intros a b. split.
+  - intros H. split; intros x Hx; specialize (H x Hx); rewrite cnt_app in H; lia.
+  - intros [H1 H2]. cnt_solve.
+Qed.
+Lemma old_only_cons : forall a l, old_only (a :: l) <-> (a <= m0)%N /\ old_only l.
+Proof.
+  intros a l. split.
+  - intros H. split.
+    + destruct (N.le_gt_cases a m0) as [Hle|Hgt]; [exact Hle|]. specialize (H a Hgt). rewrite cnt_cons in H.
+      destruct (N.eq_dec a a); [discriminate | congruence].
+    + intros x Hx. specialize (H x Hx). rewrite cnt_cons in H. lia.
+  - intros [Ha H]. cnt_solve.
+Qed.
+Lemma old_only_nil : old_only [].
+Proof. intros x Hx. reflexivity. Qed.
+
+Lemma fresh_env_cnt : forall bs st env st1, fresh_env bs st = (env, st1) -> (m0 <= s_max st)%N ->
+  fresh_cnt (s_max st) (s_max st1) (ids env).
+Proof.
+  induction bs as [|b r IH]; intros st env st1 H Hm; simpl in H.
+  - inv H. apply fresh_cnt_nil.
+  - destruct (fresh_env r _) as [r' st2] eqn:Hr. inv H.
+    pose proof (fresh_env_spec _ _ _ _ Hr) as [Hm2 _]. apply IH in Hr; [|simpl; lia]. simpl in *.
+    change (ids (mkb (shrink_identifier (fst (bvar b), N.succ (s_max st))) (bchi b) (bty b) :: r'))
+      with (N.succ (s_max st) :: ids r'). cnt_solve.
+Qed.
+End Fresh.
+
+Ltac cnt_simpl := repeat (rewrite ?cnt_app, ?cnt_cons, ?cnt_nil in * ).
+Ltac inst_at x Hx :=
+  repeat match goal with
+         | H : fresh_cnt _ _ _ _ |- _ => let H1 := fresh "Hc" in pose proof (H x Hx) as H1; clear H
+         | H : old_only _ _ |- _ => let H1 := fresh "Ho" in pose proof (H x Hx) as H1; clear H
+         end.
+Ltac cnt_solve :=
+  let x := fresh "x" in let Hx := fresh "Hx" in
+  intros x Hx; inst_at x Hx; cnt_simpl;
+  repeat match goal with |- context [N.eq_dec ?a x] => destruct (N.eq_dec a x); [subst|] end;
+  simpl in *; try lia.
+
+Section Fresh2.
+Variable m0 : N.
+Notation fresh_cnt := (fresh_cnt m0).
+Notation old_only := (old_only m0).
+
+Lemma cls_binders_cons : forall c r, cls_binders (c :: r) = ids (snd (fst c)) ++ binders (snd c) ++ cls_binders r.
+Proof. intros. unfold cls_binders. simpl. now rewrite app_assoc. Qed.
+
+Lemma unknown_clauses_mono : forall codata ve tty xs st cls st',
+  unknown_clauses codata ve tty xs st = (cls, st') -> (s_max st <= s_max st')%N.
+Proof.
+  induction xs as [|[xt args] r IH]; intros st cls st' H; simpl in H.
+  - inv H. lia.
+  - destruct (fresh_env _ st) as [env st1] eqn:He. destruct (unknown_clauses _ _ _ r st1) as [r' st2] eqn:Hr. inv H.
+    apply fresh_env_spec in He as [? _]. apply IH in Hr. lia.
+Qed.
+Lemma critical_clauses_mono : forall codata ve tty se xs st cls st',
+  critical_clauses codata ve tty se xs st = (cls, st') -> (s_max st <= s_max st')%N.
+Proof.
+  induction xs as [|[xt args] r IH]; intros st cls st' H; simpl in H.
+  - inv H. lia.
+  - destruct (fresh_env _ st) as [env st1] eqn:He. destruct (critical_clauses _ _ _ _ r _) as [r' st2] eqn:Hr. inv H.
+    apply fresh_env_spec in He as [? _]. apply IH in Hr. simpl in Hr. lia.
+Qed.
+
+Lemma unknown_clauses_cnt : forall codata ve tty xs st cls st',
+  unknown_clauses codata ve tty xs st = (cls, st') -> (m0 <= s_max st)%N ->
+  fresh_cnt (s_max st) (s_max st') (cls_binders cls).
+Proof.
+  induction xs as [|[xt args] r IH]; intros st cls st' H Hm; simpl in H.
+  - inv H. apply fresh_cnt_nil.
+  - destruct (fresh_env _ st) as [env st1] eqn:He. destruct (unknown_clauses _ _ _ r st1) as [r' st2] eqn:Hr. inv H.
+    pose proof (fresh_env_spec _ _ _ _ He) as [Hm1 _].
+    pose proof (unknown_clauses_mono _ _ _ _ _ _ _ Hr) as Hm2.
+    apply (fresh_env_cnt m0) in He; auto. apply IH in Hr; [|lia].
+    rewrite cls_binders_cons. cbn [fst snd binders app].
+    eapply fresh_cnt_app; eauto.
+Qed.
+
+(* the clauses of a critical pair contain one copy of the shrunk expanded side per xtor: fine when
+   that statement binds nothing (leaf statement or call of its lifted definition) ... *)
+Lemma critical_clauses_cnt_nil : forall codata ve tty se xs st cls st',
+  critical_clauses codata ve tty se xs st = (cls, st') -> (m0 <= s_max st)%N -> binders se = [] ->
+  fresh_cnt (s_max st) (s_max st') (cls_binders cls).
+Proof.
+  induction xs as [|[xt args] r IH]; intros st cls st' H Hm Hse; simpl in H.
+  - inv H. apply fresh_cnt_nil.
+  - destruct (fresh_env _ st) as [env st1] eqn:He. destruct (critical_clauses _ _ _ _ r _) as [r' st2] eqn:Hr. inv H.
+    pose proof (fresh_env_spec _ _ _ _ He) as [Hm1 _].
+    pose proof (critical_clauses_mono _ _ _ _ _ _ _ _ Hr) as Hm2. simpl in Hm2.
+    apply (fresh_env_cnt m0) in He; auto. apply IH in Hr; auto; [|simpl; lia]. simpl in Hr.
+    rewrite cls_binders_cons. cbn [fst snd]. cbn [binders]. rewrite binders_ax_subst, Hse. unfold idn. cbn [snd shrink_identifier].
+    cnt_solve.
+Qed.
+(* ... or when there is at most one xtor *)
+Lemma critical_clauses_cnt_one : forall codata ve tty se xs st cls st' lo extra,
+  critical_clauses codata ve tty se xs st = (cls, st') -> (m0 <= lo)%N -> (lo <= s_max st)%N ->
+  List.length xs <= 1 -> fresh_cnt lo (s_max st) (binders se ++ extra) ->
+  fresh_cnt lo (s_max st') (cls_binders cls ++ extra).
+Proof.
+  intros codata ve tty se xs st cls st' lo extra H Hm Hlo Hlen Hse.
+  destruct xs as [|[xt args] [|y r]]; simpl in Hlen; try lia; simpl in H.
+  - inv H. cbn [cls_binders flat_map app]. cnt_solve.
+  - destruct (fresh_env _ st) as [env st1] eqn:He. inv H.
+    pose proof (fresh_env_spec _ _ _ _ He) as [Hm1 _].
+    apply (fresh_env_cnt m0) in He; [|lia].
+    rewrite cls_binders_cons. cbn [fst snd]. cbn [binders]. rewrite binders_ax_subst. unfold idn. cbn [snd shrink_identifier s_max cls_binders flat_map].
+    cnt_solve.
+Qed.
+
+Lemma fresh_params_cnt : forall fvs m, (m0 <= m)%N -> fresh_cnt m (m + N.of_nat (List.length fvs)) (cids (fresh_params fvs m)).
+Proof.
+  induction fvs as [|b r IH]; intros m Hm; cbn [fresh_params cids map List.length].
+  - apply fresh_cnt_nil.
+  - specialize (IH (N.succ m)). unfold cid_id at 1. cbn [cbvar snd]. fold (cids (fresh_params r (N.succ m))).
+    rewrite Nat2N.inj_succ. assert (Hs : (m0 <= N.succ m)%N) by lia. specialize (IH Hs).
+    replace (m + N.succ (N.of_nat (List.length r)))%N with (N.succ m + N.of_nat (List.length r))%N by lia.
+    cnt_solve.
+Qed.
+Lemma ids_shrink_context : forall codata c, ids (shrink_context codata c) = cids c.
+Proof.
+  intros. unfold ids, shrink_context, cids. rewrite map_map. apply map_ext. intros b. now rewrite shrink_binding_var.
+Qed.
+
+Definition fr_pre (st : sst) (s : fsstmt) : Prop := old_only (cbinders s) /\ (m0 <= s_max st)%N.
+Definition fr_post (st : sst) (r : stmt) (st' : sst) : Prop :=
+  (s_max st <= s_max st')%N /\
+  exists nd, s_lifted st' = nd ++ s_lifted st /\ fresh_cnt (s_max st) (s_max st') (binders r ++ lifted_binders nd).
+
+Section FreshStep.
+Variable rec : fsstmt -> sst -> shres (stmt * sst).
+Variable E : senv.
+Hypothesis Hrec : forall s st r st', rec s st = SOk (r, st') -> fr_pre st s -> fr_post st r st'.
+Hypothesis Hleaf : forall s st r st', rec s st = SOk (r, st') -> is_leaf_statement s = true -> binders r = [].
+
+Lemma shrink_clauses_fr : forall cls st r st',
+  shrink_clauses rec E cls st = SOk (r, st') -> old_only (cbinders_clauses cls) -> (m0 <= s_max st)%N ->
+  (s_max st <= s_max st')%N /\
+  exists nd, s_lifted st' = nd ++ s_lifted st /\ fresh_cnt (s_max st) (s_max st') (cls_binders r ++ lifted_binders nd).
+Proof.
+  induction cls as [|[c x ctx b] rr IH]; intros st r st' H Ho Hm; simpl in H.
+  - inv H. split; [lia|]. exists []. split; [reflexivity|]. apply fresh_cnt_nil.
+  - destruct (rec b st) as [[b' st1]|] eqn:Hb; [|discriminate]. cbn [sbind] in H.
+    destruct (shrink_clauses rec E rr st1) as [[r' st2]|] eqn:Hr; [|discriminate]. cbn [sbind] in H. inv H.
+    unfold cbinders_clauses in Ho. cbn [flat_map clause_ctx clause_body] in Ho.
+    apply old_only_app in Ho as [Ho1 Ho2]. apply old_only_app in Ho1 as [Hctx Hbody].
+    apply Hrec in Hb as [Hm1 [nd1 [Hl1 Hc1]]]; [|split; auto].
+    apply IH in Hr as [Hm2 [nd2 [Hl2 Hc2]]]; auto; [|lia].
+    split; [lia|]. exists (nd2 ++ nd1). split; [rewrite Hl2, Hl1; now rewrite app_assoc|].
+    rewrite cls_binders_cons, lifted_binders_app. cbn [fst snd]. rewrite ids_shrink_context.
+    cnt_solve.
+Qed.
+
+Lemma lift_fr : forall s st r st', lift rec E s st = SOk (r, st') -> fr_pre st s -> fr_post st r st' /\ binders r = [].
+Proof.
+  intros s st r st' H [Ho Hm]. apply lift_closed in H.
+  destruct H as [_ [_ [_ [_ [label [body [st3 [_ [Hlab [_ [-> [Hb ->]]]]]]]]]]]]. split; [|reflexivity].
+  set (fvs := typed_free_vars s) in *.
+  apply Hrec in Hb as [Hm3 [nd3 [Hl3 Hc3]]]; [|split; [now rewrite cbinders_subst | cbn [s_max]; lia]].
+  unfold fr_post. cbn [s_max s_lifted] in *. split; [lia|].
+  exists (mkd label (shrink_context (e_codata E) (fresh_params fvs (s_max st))) body :: nd3).
+  split; [now rewrite Hl3|].
+  cbn [binders app lifted_binders flat_map]. unfold def_binders at 1. cbn [dctx dbody dname]. rewrite ids_shrink_context.
+  unfold idn at 1. fold (lifted_binders nd3).
+  pose proof (fresh_params_cnt fvs (s_max st) Hm) as Hp.
+  cnt_solve.
+Qed.
+End FreshStep.
+End Fresh2.
+
+
+Lemma critical_clauses_lifted : forall codata ve tty se xs st cls st',
+  critical_clauses codata ve tty se xs st = (cls, st') -> s_lifted st' = s_lifted st.
+Proof.
+  induction xs as [|[xt args] r IH]; intros st cls st' H; simpl in H.
+  - now inv H.
+  - destruct (fresh_env _ st) as [env st1] eqn:He. destruct (critical_clauses _ _ _ _ r _) as [r' st2] eqn:Hr. inv H.
+    apply fresh_env_spec in He as [_ [Hl _]]. apply IH in Hr. simpl in Hr. congruence.
+Qed.
+Lemma unknown_clauses_lifted : forall codata ve tty xs st cls st',
+  unknown_clauses codata ve tty xs st = (cls, st') -> s_lifted st' = s_lifted st.
+Proof.
+  induction xs as [|[xt args] r IH]; intros st cls st' H; simpl in H.
+  - now inv H.
+  - destruct (fresh_env _ st) as [env st1] eqn:He. destruct (unknown_clauses _ _ _ r st1) as [r' st2] eqn:Hr. inv H.
+    apply fresh_env_spec in He as [_ [Hl _]]. apply IH in Hr. congruence.
+Qed.
+
+Section Fresh3.
+Variable m0 : N.
+Notation fresh_cnt := (fresh_cnt m0).
+Notation old_only := (old_only m0).
+Notation fr_pre := (fr_pre m0).
+Notation fr_post := (fr_post m0).
+Variable rec : fsstmt -> sst -> shres (stmt * sst).
+Variable E : senv.
+Hypothesis Hrec : forall s st r st', rec s st = SOk (r, st') -> fr_pre st s -> fr_post st r st'.
+Hypothesis Hleaf : forall s st r st', rec s st = SOk (r, st') -> is_leaf_statement s = true -> binders r = [].
+
+Lemma critical_fr : forall vp sp vc sc ty st r st',
+  shrink_critical_pairs rec E vp sp vc sc ty st = SOk (r, st') ->
+  (cid_id vp <= m0)%N -> (cid_id vc <= m0)%N -> old_only (cbinders sp) -> old_only (cbinders sc) ->
+  (m0 <= s_max st)%N -> fr_post st r st'.
+Proof.
+  intros vp sp vc sc ty st r st' H Hvp Hvc Hsp Hsc Hm. unfold shrink_critical_pairs in H. destruct ty as [|n].
+  - destruct (rec sc st) as [[body st1]|] eqn:H1; [|discriminate]. cbn [sbind] in H.
+    destruct (rec sp st1) as [[next st2]|] eqn:H2; [|discriminate]. cbn [sbind] in H. inv H.
+    apply Hrec in H1 as [Hm1 [nd1 [Hl1 Hc1]]]; [|split; auto].
+    apply Hrec in H2 as [Hm2 [nd2 [Hl2 Hc2]]]; [|split; auto; lia].
+    split; [lia|]. exists (nd2 ++ nd1). split; [rewrite Hl2, Hl1; now rewrite app_assoc|].
+    rewrite binders_create, lifted_binders_app. unfold cls_binders. cbn [flat_map fst snd ids map bvar app].
+    unfold idn, shrink_identifier. cbn [snd]. rewrite app_nil_r. unfold cid_id in *. cnt_solve.
+  - destruct (xtors_of E (CDecl n) n) as [xs|]; [|discriminate]. cbn [sbind] in H.
+    assert (Hgen : forall vk sk ve se,
+      (cid_id vk <= m0)%N -> old_only (cbinders sk) -> old_only (cbinders se) ->
+      (dos (shrunk, st1) <- (if Nat.leb (List.length xs) 1 || is_leaf_statement se then rec se st else lift rec E se st);
+       let '(clauses, st2) := critical_clauses (e_codata E) ve (shrink_ty (CDecl n)) shrunk xs st1 in
+       dos (next, st3) <- rec sk st2;
+       SOk (Create (shrink_identifier vk) (Decl (shrink_identifier n)) None clauses next, st3)) = SOk (r, st') ->
+      fr_post st r st').
+    { intros vk sk ve se Hvk Hsk Hse H0.
+      destruct (if _ || _ then _ else _) as [[shrunk st1]|] eqn:He; [|discriminate]. cbn [sbind] in H0.
+      destruct (critical_clauses _ _ _ _ _ _) as [cls st2] eqn:Hc.
+      destruct (rec sk st2) as [[next st3]|] eqn:Hk; [|discriminate]. cbn [sbind] in H0. inv H0.
+      pose proof (critical_clauses_mono _ _ _ _ _ _ _ _ Hc) as Hm12.
+      pose proof (critical_clauses_lifted _ _ _ _ _ _ _ _ Hc) as Hl12.
+      assert (Hcls : (s_max st <= s_max st1)%N /\ exists nd1, s_lifted st1 = nd1 ++ s_lifted st /\
+                     fresh_cnt (s_max st) (s_max st2) (cls_binders cls ++ lifted_binders nd1)).
+      { destruct (Nat.leb (List.length xs) 1) eqn:Hlen; cbn [orb] in He.
+        - apply Hrec in He as [Hm1 [nd1 [Hl1 Hc1]]]; [|split; auto]. split; [lia|]. exists nd1. split; auto.
+          eapply critical_clauses_cnt_one; [exact Hc | exact Hm | lia | now apply Nat.leb_le | exact Hc1].
+        - assert (Hpost : fr_post st shrunk st1 /\ binders shrunk = []).
+          { destruct (is_leaf_statement se) eqn:Hlf.
+            - split; [eapply Hrec; [exact He | split; auto] | eapply Hleaf; eauto].
+            - eapply lift_fr; eauto. split; auto. }
+          destruct Hpost as [[Hm1 [nd1 [Hl1 Hc1]]] Hb0]. split; [lia|]. exists nd1. split; auto.
+          rewrite Hb0 in Hc1. cbn [app] in Hc1.
+          pose proof (critical_clauses_cnt_nil m0 _ _ _ _ _ _ _ _ Hc) as Hcn.
+          assert (Hcn' : fresh_cnt (s_max st1) (s_max st2) (cls_binders cls)) by (apply Hcn; auto; lia).
+          clear Hcn. cnt_solve. }
+      destruct Hcls as [Hm1 [nd1 [Hl1 Hc1]]].
+      apply Hrec in Hk as [Hm3 [nd3 [Hl3 Hc3]]]; [|split; auto; lia].
+      split; [lia|]. exists (nd3 ++ nd1). split; [rewrite Hl3, Hl12, Hl1; now rewrite app_assoc|].
+      rewrite binders_create, lifted_binders_app. unfold idn, shrink_identifier. cbn [snd]. unfold cid_id in *.
+      cnt_solve. }
+    destruct (is_codata (e_codata E) (CDecl n)); cbv beta iota in H;
+      [apply (Hgen vc sc vp sp) | apply (Hgen vp sp vc sc)]; auto.
+Qed.
+End Fresh3.
+
+Lemma shrink_step_leaf : forall rec E s st r st',
+  shrink_step rec E s st = SOk (r, st') -> is_leaf_statement s = true -> binders r = [].
+Proof.
+  intros rec E s st r st' H Hl. destruct s as [p ty k|so a b t e|nl a nx|f args|v]; try discriminate Hl.
+  - destruct p; try discriminate Hl; destruct k; try discriminate Hl; simpl in H; inv H; reflexivity.
+  - simpl in H. inv H. reflexivity.
+  - simpl in H. inv H. reflexivity.
+Qed.
+
+Section Fresh4.
+Variable m0 : N.
+Notation fresh_cnt := (fresh_cnt m0).
+Notation old_only := (old_only m0).
+Notation fr_pre := (fr_pre m0).
+Notation fr_post := (fr_post m0).
+Variable rec : fsstmt -> sst -> shres (stmt * sst).
+Variable E : senv.
+Hypothesis Hrec : forall s st r st', rec s st = SOk (r, st') -> fr_pre st s -> fr_post st r st'.
+Hypothesis Hleaf : forall s st r st', rec s st = SOk (r, st') -> is_leaf_statement s = true -> binders r = [].
+
+Lemma fr_post_nobinders : forall st r, binders r = [] -> fr_post st r st.
+Proof.
+  intros st r Hb. split; [lia|]. exists []. split; [reflexivity|]. rewrite Hb. apply fresh_cnt_nil.
+Qed.
+
+Lemma unknown_fr : forall vp vc ty st r st',
+  shrink_unknown_cuts E vp vc ty st = SOk (r, st') -> (m0 <= s_max st)%N -> fr_post st r st'.
+Proof.
+  intros vp vc ty st r st' H Hm. unfold shrink_unknown_cuts in H. destruct ty as [|n].
+  - inv H. now apply fr_post_nobinders.
+  - destruct (xtors_of E (CDecl n) n) as [xs|]; [|discriminate]. cbn [sbind] in H.
+    destruct (is_codata (e_codata E) (CDecl n)); cbv beta iota in H;
+      destruct (unknown_clauses _ _ _ _ _) as [cls st1] eqn:Hc; inv H;
+      pose proof (unknown_clauses_mono _ _ _ _ _ _ _ Hc) as Hm1;
+      pose proof (unknown_clauses_lifted _ _ _ _ _ _ _ Hc) as Hl1;
+      apply (unknown_clauses_cnt m0) in Hc; auto;
+      (split; [lia|]; exists []; split; [now rewrite Hl1|]; rewrite binders_switch; cbn [lifted_binders flat_map]; rewrite app_nil_r; exact Hc).
+Qed.
+
+Lemma old_only_clause_in : forall cls cl, old_only (cbinders_clauses cls) -> In cl cls -> old_only (cbinders (clause_body cl)).
+Proof.
+  induction cls as [|c r IH]; intros cl Ho Hin; [contradiction|].
+  unfold cbinders_clauses in Ho. cbn [flat_map] in Ho. apply old_only_app in Ho as [Ho1 Ho2].
+  destruct Hin as [->|Hin]; [now apply old_only_app in Ho1 as [_ ?] | now apply IH].
+Qed.
+
+Lemma known_fr : forall x args cls st r st',
+  shrink_known_cuts rec x args cls st = SOk (r, st') ->
+  old_only (cbinders_clauses cls) -> (m0 <= s_max st)%N -> fr_post st r st'.
+Proof.
+  intros x args cls st r st' H Ho Hm. unfold shrink_known_cuts in H.
+  destruct (find _ cls) as [cl|] eqn:Hf; [|discriminate]. apply find_some in Hf as [Hin _].
+  apply Hrec in H; auto. split; auto. rewrite cbinders_subst. eapply old_only_clause_in; eauto.
+Qed.
+
+Lemma shrink_step_fr : forall s st r st', shrink_step rec E s st = SOk (r, st') -> fr_pre st s -> fr_post st r st'.
+Proof.
+  intros s st r st' H [Ho Hm]. destruct s as [p ty k|so a b t e|nl a nx|f args|v].
+  - (* cut *)
+    cbn [shrink_step] in H. unfold shrink_cut in H. cbn [cbinders] in Ho. apply old_only_app in Ho as [Hp Hk].
+    destruct p as [c1 v1 t1|l1|a1 o1 b1|c1 v1 s1 t1|c1 x1 args1 t1|c1 cls1 t1];
+    destruct k as [c2 v2 t2|l2|a2 o2 b2|c2 v2 s2 t2|c2 x2 args2 t2|c2 cls2 t2];
+      try discriminate H; rewrite ?cbinders_term_xcase in *; cbn [cbinders_term] in Hp, Hk;
+      repeat match goal with Hq : old_only (_ :: _) |- _ => apply old_only_cons in Hq as [? ?] end.
+    + (* XVar, XVar *) eapply unknown_fr; eauto.
+    + (* XVar, Mu *) unfold shrink_renaming in H. apply Hrec in H; auto. split; auto. now rewrite cbinders_subst.
+    + (* XVar, Xtor *) inv H. now apply fr_post_nobinders.
+    + (* XVar, XCase *)
+      destruct (shrink_clauses rec E cls2 st) as [[cls' st1]|] eqn:Hc; [|discriminate]. cbn [sbind] in H. inv H.
+      eapply (shrink_clauses_fr m0) in Hc as [Hm1 [nd [Hl Hcn]]]; eauto.
+      split; auto. exists nd. split; auto. now rewrite binders_switch.
+    + (* Lit, XVar *) unfold fresh_var, fresh_identifier in H. inv H. split; [cbn [s_max]; lia|]. exists []. split; [reflexivity|].
+      cbn [binders invoke_ret app lifted_binders flat_map s_max]. unfold idn, shrink_identifier, cid_id in *. cbn [snd]. cnt_solve.
+    + (* Lit, Mu *)
+      destruct (rec s2 st) as [[nx st1]|] eqn:Hr; [|discriminate]. cbn [sbind] in H. inv H.
+      apply Hrec in Hr as [Hm1 [nd [Hl Hcn]]]; [|split; auto]. split; auto. exists nd. split; auto.
+      cbn [binders]. unfold idn, shrink_identifier, cid_id in *. cnt_solve.
+    + (* Op, XVar *) unfold fresh_var, fresh_identifier in H. inv H. split; [cbn [s_max]; lia|]. exists []. split; [reflexivity|].
+      cbn [binders invoke_ret app lifted_binders flat_map s_max]. unfold idn, shrink_identifier, cid_id in *. cbn [snd]. cnt_solve.
+    + (* Op, Mu *)
+      destruct (rec s2 st) as [[nx st1]|] eqn:Hr; [|discriminate]. cbn [sbind] in H. inv H.
+      apply Hrec in Hr as [Hm1 [nd [Hl Hcn]]]; [|split; auto]. split; auto. exists nd. split; auto.
+      cbn [binders]. unfold idn, shrink_identifier, cid_id in *. cnt_solve.
+    + (* Mu, XVar *) unfold shrink_renaming in H. apply Hrec in H; auto. split; auto. now rewrite cbinders_subst.
+    + (* Mu, Mu *) eapply critical_fr; eauto.
+    + (* Mu, Xtor *)
+      destruct (rec s1 st) as [[nx st1]|] eqn:Hr; [|discriminate]. cbn [sbind] in H. inv H.
+      apply Hrec in Hr as [Hm1 [nd [Hl Hcn]]]; [|split; auto]. split; auto. exists nd. split; auto.
+      cbn [binders]. unfold idn, shrink_identifier, cid_id in *. cnt_solve.
+    + (* Mu, XCase *)
+      destruct (shrink_clauses rec E cls2 st) as [[cls' st1]|] eqn:Hc; [|discriminate]. cbn [sbind] in H.
+      destruct (rec s1 st1) as [[nx st2]|] eqn:Hr; [|discriminate]. cbn [sbind] in H. inv H.
+      eapply (shrink_clauses_fr m0) in Hc as [Hm1 [nd1 [Hl1 Hc1]]]; eauto.
+      apply Hrec in Hr as [Hm2 [nd2 [Hl2 Hc2]]]; [|split; auto; lia].
+      split; [lia|]. exists (nd2 ++ nd1). split; [rewrite Hl2, Hl1; now rewrite app_assoc|].
+      rewrite binders_create, lifted_binders_app. unfold idn, shrink_identifier, cid_id in *. cnt_solve.
+    + (* Xtor, XVar *) inv H. now apply fr_post_nobinders.
+    + (* Xtor, Mu *)
+      destruct (rec s2 st) as [[nx st1]|] eqn:Hr; [|discriminate]. cbn [sbind] in H. inv H.
+      apply Hrec in Hr as [Hm1 [nd [Hl Hcn]]]; [|split; auto]. split; auto. exists nd. split; auto.
+      cbn [binders]. unfold idn, shrink_identifier, cid_id in *. cnt_solve.
+    + (* Xtor, XCase *) eapply known_fr; eauto.
+    + (* XCase, XVar *)
+      destruct (shrink_clauses rec E cls1 st) as [[cls' st1]|] eqn:Hc; [|discriminate]. cbn [sbind] in H. inv H.
+      eapply (shrink_clauses_fr m0) in Hc as [Hm1 [nd [Hl Hcn]]]; eauto.
+      split; auto. exists nd. split; auto. now rewrite binders_switch.
+    + (* XCase, Mu *)
+      destruct (shrink_clauses rec E cls1 st) as [[cls' st1]|] eqn:Hc; [|discriminate]. cbn [sbind] in H.
+      destruct (rec s2 st1) as [[nx st2]|] eqn:Hr; [|discriminate]. cbn [sbind] in H. inv H.
+      eapply (shrink_clauses_fr m0) in Hc as [Hm1 [nd1 [Hl1 Hc1]]]; eauto.
+      apply Hrec in Hr as [Hm2 [nd2 [Hl2 Hc2]]]; [|split; auto; lia].
+      split; [lia|]. exists (nd2 ++ nd1). split; [rewrite Hl2, Hl1; now rewrite app_assoc|].
+      rewrite binders_create, lifted_binders_app. unfold idn, shrink_identifier, cid_id in *. cnt_solve.
+    + (* XCase, Xtor *) eapply known_fr; eauto.
+  - cbn [shrink_step] in H. cbn [cbinders] in Ho. apply old_only_app in Ho as [Ht He].
+    destruct (rec t st) as [[t' st1]|] eqn:Hr1; [|discriminate]. cbn [sbind] in H.
+    destruct (rec e st1) as [[e' st2]|] eqn:Hr2; [|discriminate]. cbn [sbind] in H. inv H.
+    apply Hrec in Hr1 as [Hm1 [nd1 [Hl1 Hc1]]]; [|split; auto].
+    apply Hrec in Hr2 as [Hm2 [nd2 [Hl2 Hc2]]]; [|split; auto; lia].
+    split; [lia|]. exists (nd2 ++ nd1). split; [rewrite Hl2, Hl1; now rewrite app_assoc|].
+    cbn [binders]. rewrite lifted_binders_app. cnt_solve.
+  - cbn [shrink_step] in H. cbn [cbinders] in Ho.
+    destruct (rec nx st) as [[t' st1]|] eqn:Hr1; [|discriminate]. cbn [sbind] in H. inv H.
+    apply Hrec in Hr1 as [Hm1 [nd1 [Hl1 Hc1]]]; [|split; auto]. split; auto. exists nd1. split; auto.
+  - cbn [shrink_step] in H. inv H. now apply fr_post_nobinders.
+  - cbn [shrink_step] in H. inv H. now apply fr_post_nobinders.
+Qed.
+End Fresh4.
+
+Lemma shrink_stmt_leaf : forall E fuel s st r st',
+  shrink_stmt fuel E s st = SOk (r, st') -> is_leaf_statement s = true -> binders r = [].
+Proof. intros E [|fuel] s st r st' H Hl; [discriminate|]. simpl in H. eapply shrink_step_leaf; eauto. Qed.
+Lemma shrink_stmt_fr : forall m0 E fuel s st r st',
+  shrink_stmt fuel E s st = SOk (r, st') -> fr_pre m0 st s -> fr_post m0 st r st'.
+Proof.
+  intros m0 E fuel. induction fuel as [|fuel IH]; intros s st r st' H Hpre; [discriminate|].
+  simpl in H. eapply shrink_step_fr; eauto. intros. eapply shrink_stmt_leaf; eauto.
+Qed.
+
+(* ---------- program level ---------- *)
+Lemma cbinders_le_all : forall m,
+  (forall t, ib_term m t = true -> forall x, In x (cbinders_term t) -> (x <= m)%N) /\
+  (forall c, ctx_le m (clause_ctx c) && ib_stmt m (clause_body c) = true ->
+             forall x, In x (cids (clause_ctx c) ++ cbinders (clause_body c)) -> (x <= m)%N) /\
+  (forall s, ib_stmt m s = true -> forall x, In x (cbinders s) -> (x <= m)%N).
+Proof.
+  intros m. apply fs_mutind; intros;
+    rewrite ?ib_term_xcase, ?cbinders_term_xcase, ?ib_term_mu, ?ib_stmt_cut, ?ib_stmt_ifc, ?ib_stmt_print in *;
+    cbn [cbinders_term cbinders clause_ctx clause_body] in *; try contradiction; split_and.
+  - destruct H1 as [<-|H1]; [now apply N.leb_le | eauto].
+  - unfold ib_clauses, cbinders_clauses in *. apply in_flat_map in H1 as [cl [Hcl Hx]].
+    rewrite Forall_forall in H. rewrite forallb_forall in H0. eapply H; eauto.
+  - apply in_app_or in H1 as [H1|H1]; [|eauto]. unfold ctx_le in H0. rewrite forallb_forall in H0.
+    unfold cids in H1. apply in_map_iff in H1 as [b0 [<- Hb0]]. apply N.leb_le. now apply H0.
+  - apply in_app_or in H2 as [H2|H2]; eauto.
+  - apply in_app_or in H2 as [H2|H2]; eauto.
+  - eauto.
+Qed.
+Lemma old_only_of_le : forall m0 l, (forall x, In x l -> (x <= m0)%N) -> old_only m0 l.
+Proof.
+  intros m0 l H x Hx. unfold cnt. apply count_occ_not_In. intros Hin. apply H in Hin. lia.
+Qed.
+Lemma old_only_cbinders : forall m0 s, ib_stmt m0 s = true -> old_only m0 (cbinders s).
+Proof. intros. apply old_only_of_le. intros x Hx. eapply (proj2 (proj2 (cbinders_le_all m0))); eauto. Qed.
+Lemma old_only_cids : forall m0 c, ctx_le m0 c = true -> old_only m0 (cids c).
+Proof.
+  intros. apply old_only_of_le. intros x Hx. unfold ctx_le in H. rewrite forallb_forall in H.
+  unfold cids in Hx. apply in_map_iff in Hx as [b [<- Hb]]. apply N.leb_le. now apply H.
+Qed.
+
+Lemma cnt_lifted_rev_append : forall o acc x,
+  cnt (lifted_binders (rev_append o acc)) x = cnt (lifted_binders o) x + cnt (lifted_binders acc) x.
+Proof.
+  induction o as [|d r IH]; intros acc x; [reflexivity|].
+  cbn [rev_append]. rewrite IH. unfold lifted_binders. cbn [flat_map]. rewrite !cnt_app. lia.
+Qed.
+
+Lemma shrink_def_fr : forall m0 d data codata used m ds used' m',
+  shrink_def d data codata used m = SOk (ds, used', m') -> (m0 <= m)%N ->
+  id_le m0 (fsdname d) = true -> ctx_le m0 (fsdctx d) = true -> ib_stmt m0 (fsdbody d) = true ->
+  (m <= m')%N /\ fresh_cnt m0 m m' (lifted_binders ds).
+Proof.
+  intros m0 d data codata used m ds used' m' H Hm Hn Hc Hb. unfold shrink_def in H.
+  destruct (shrink_stmt _ _ _ _) as [[body st]|] eqn:Hs; [|discriminate]. cbn [sbind] in H. inv H.
+  apply (shrink_stmt_fr m0) in Hs as [Hm1 [nd [Hl Hcn]]]; [|split; [now apply old_only_cbinders | exact Hm]].
+  cbn [s_max s_lifted] in *. rewrite app_nil_r in Hl. subst nd. split; auto.
+  cbn [lifted_binders flat_map]. unfold def_binders at 1. cbn [dname dctx dbody]. rewrite ids_shrink_context.
+  fold (lifted_binders (s_lifted st)).
+  pose proof (old_only_cids _ _ Hc) as Hoc. unfold idn, shrink_identifier. unfold id_le in Hn. apply N.leb_le in Hn. unfold cid_id in *.
+  cnt_solve.
+Qed.
+
+Lemma shrink_defs_fr : forall m0 ds data codata used m acc out m',
+  shrink_defs ds data codata used m acc = SOk (out, m') -> (m0 <= m)%N ->
+  forallb (fun d => id_le m0 (fsdname d) && ctx_le m0 (fsdctx d) && ib_stmt m0 (fsdbody d)) ds = true ->
+  fresh_cnt m0 m0 m (lifted_binders acc) ->
+  (m <= m')%N /\ fresh_cnt m0 m0 m' (lifted_binders out).
+Proof.
+  induction ds as [|d r IH]; intros data codata used m acc out m' H Hm Hds Hacc; simpl in H.
+  - inv H. split; [lia|]. unfold frev. intros x Hx. specialize (Hacc x Hx).
+    rewrite cnt_lifted_rev_append. cbn [lifted_binders flat_map]. rewrite cnt_nil. lia.
+  - destruct (shrink_def d data codata used m) as [[[o u1] m1]|] eqn:Hd; [|discriminate]. cbn [sbind] in H.
+    simpl in Hds. split_and. eapply shrink_def_fr in Hd as [Hm1 Ho]; eauto.
+    apply IH in H as [Hm2 Hout]; auto; [split; [lia | exact Hout] | lia |].
+    intros x Hx. specialize (Hacc x Hx). specialize (Ho x Hx). rewrite cnt_lifted_rev_append. lia.
+Qed.
+
+Lemma fresh_cnt_nodup : forall m0 lo hi B, fresh_cnt m0 lo hi B -> NoDup (filter (fun x => N.ltb m0 x) B).
+Proof.
+  induction B as [|a r IH]; intros H; simpl; [constructor|].
+  assert (Hr : fresh_cnt m0 lo hi r).
+  { intros x Hx. specialize (H x Hx). rewrite cnt_cons in H. destruct (N.eq_dec a x); lia. }
+  destruct (N.ltb m0 a) eqn:Ha; [|now apply IH].
+  constructor; [|now apply IH]. intros Hin. apply filter_In in Hin as [Hin _].
+  apply N.ltb_lt in Ha. specialize (H a Ha). rewrite cnt_cons in H. destruct (N.eq_dec a a); [|congruence].
+  assert (cnt r a > 0) by (apply count_occ_In; exact Hin). lia.
+Qed.
+
+(* Every id that shrinking introduces - ids of lifted labels, parameters of lifted definitions, binders
+   (let/create/literal/op variables, clause parameters) - is greater than the input's max_id, at most
+   the output's max_id, and the ids introduced are pairwise distinct: in the list of all label ids,
+   parameters and binders of the output program, the entries > max_id(input) occur once each. *)
+Theorem shrink_fresh_ids : forall p q,
+  ids_bounded p = true -> shrink_prog p = SOk q ->
+  let B := lifted_binders (pdefs q) in
+  (forall x, In x B -> (fspmax p < x)%N -> (x <= pmax q)%N) /\
+  NoDup (filter (fun x => N.ltb (fspmax p) x) B).
+Proof.
+  intros p q Hb H B. unfold shrink_prog in H. destruct (_ || _); [discriminate|].
+  destruct (shrink_defs _ _ _ _ _ _) as [[defs m]|] eqn:Hd; [|discriminate]. cbn [sbind] in H. inv H. cbn [pmax pdefs] in *.
+  eapply (shrink_defs_fr (fspmax p)) in Hd as [Hm Hc]; [| lia | exact Hb | apply fresh_cnt_nil].
+  split; [|eapply fresh_cnt_nodup; eauto].
+  intros x Hin Hx. specialize (Hc x Hx). assert (cnt B x > 0) by (apply count_occ_In; exact Hin). unfold B in *. lia.
 Qed.
